@@ -44,8 +44,6 @@ theorem load_spec (k : Bytes) : âˆ€ (item : Item) (e e' : Env), e.aliases = [] â
     | none => simp [hv] at h
     | some o =>
       simp only [hv, Option.bind_eq_bind, Option.bind_some] at h
-      have hres : e.resolveName k' = k' := by simp [Env.resolveName, ha, alookup]
-      rw [hres] at h
       have ih := load_spec k rest { e with store := ainsert k' o e.store } e' ha h
       by_cases hk : k' = k
       Â· subst hk
